@@ -425,6 +425,41 @@ func famHistWant(want string) family {
 			for i, q := range probes {
 				probeSX[i] = q.sx()
 			}
+			// debug mode changes only the diagnostics of failing preflights: for both configurations and every probe, a
+			// request that is not a preflight is answered identically in both modes, and a preflight that succeeds with
+			// debug off keeps its status and every header except Access-Control-Allow-Headers with debug on
+			for _, cfg := range []*cors.Config{&a, &bcfg} {
+				moff, mon := newMW(cfg, false), newMW(cfg, true)
+				if moff == nil || mon == nil {
+					continue
+				}
+				for _, q := range probes {
+					o1, o2 := serveOnce(moff, q, http.Header{}), serveOnce(mon, q, http.Header{})
+					same := func(skip string) bool {
+						if o1.status != o2.status || o1.delegated != o2.delegated || len(o1.hdrs) != len(o2.hdrs) && skip == "" {
+							return false
+						}
+						for _, pair := range [][2]http.Header{{o1.hdrs, o2.hdrs}, {o2.hdrs, o1.hdrs}} {
+							for k, v := range pair[0] {
+								if k != skip && strings.Join(v, "\x00") != strings.Join(pair[1][k], "\x00") {
+									return false
+								}
+							}
+						}
+						return true
+					}
+					switch {
+					case !isPreflightReq(q):
+						if !same("") {
+							o.emitDirect("debug-only-diagnostics", false, "a non-preflight request is answered differently in the two debug modes under "+truncate(str(cfgSX(cfg)))+": "+str(q.sx()))
+						}
+					case o1.status != 403:
+						if !same("Access-Control-Allow-Headers") {
+							o.emitDirect("debug-only-diagnostics", false, "a preflight that succeeds with debug off changes more than Access-Control-Allow-Headers with debug on under "+truncate(str(cfgSX(cfg)))+": "+str(q.sx()))
+						}
+					}
+				}
+			}
 			type opT struct {
 				kind  string
 				b     bool
